@@ -16,6 +16,38 @@ NS_REL = "http://schemas.openxmlformats.org/officeDocument/2006/relationships"
 NS_PKG = "http://schemas.openxmlformats.org/package/2006/relationships"
 DECL = '<?xml version="1.0" encoding="UTF-8" standalone="yes"?>'
 KIND_DIR = {"ws": "worksheets", "chart": "chartsheets", "dlg": "dialogsheets", "mac": "macrosheets"}
+# the relationship Type that names the kind of a sheet part: [transitional / Microsoft, strict / intl]
+NS_REL_STRICT = "http://purl.oclc.org/ooxml/officeDocument/relationships"
+NS_REL_MS = "http://schemas.microsoft.com/office/2006/relationships"
+KIND_TYPE = {"ws": [NS_REL + "/worksheet", NS_REL_STRICT + "/worksheet"],
+             "chart": [NS_REL + "/chartsheet", NS_REL_STRICT + "/chartsheet"],
+             "dlg": [NS_REL + "/dialogsheet", NS_REL_STRICT + "/dialogsheet"],
+             "mac": [NS_REL_MS + "/xlMacrosheet", NS_REL_MS + "/xlIntlMacrosheet"]}
+OTHER_TYPES = [NS_REL + "/styles", NS_REL + "/theme", NS_REL + "/sharedStrings", NS_REL_MS + "/vbaProject",
+               "http://example.org/relationships/worksheet", NS_REL, ""]
+
+
+def gen_part(rng, kind, idx, ext, allow_xl_prefix=False):
+    """a part name relative to xl/ for the idx-th sheet: OPC part names are free, the folders
+    worksheets/, chartsheets/ ... are only what Excel happens to write.  About half of the draws
+    are non-conventional: other folder, no folder, nested folders, the folder of ANOTHER kind."""
+    r = rng.random()
+    if r < 0.45:
+        return "%s/sheet%d.%s" % (KIND_DIR[kind], idx, ext)
+    if r < 0.55:
+        other = rng.choice([k for k in KIND_DIR if k != kind])
+        return "%s/sheet%d.%s" % (KIND_DIR[other], idx, ext)
+    if r < 0.65:
+        return "ws/a%d.%s" % (idx, ext)
+    if r < 0.75:
+        return "sheet%d.%s" % (idx, ext)
+    if r < 0.85:
+        return "data/s%d.%s" % (idx, ext)
+    if r < 0.90:
+        return "a/b/c/%d.%s" % (idx, ext)
+    if r < 0.95 and allow_xl_prefix:
+        return "xl/p%d.%s" % (idx, ext)
+    return rng.choice(["Tabelle%d.%s", "worksheets%d.%s", "w s/Sheet %d.%s", "x.y/%d.%s"]) % (idx, ext)
 
 # ------------------------------------------------------------------ names
 SPECIAL = ["&", "<", ">", '"', "'", "&amp;", "&#65;", "]]>", "<!--", "&lt;"]
